@@ -324,6 +324,27 @@ def gen_case(rng, i, n=None):
     return c
 
 
+def gen_panel_cols(rng, model, n_ind=None):
+    """panel table: individuals with 1-5 rows each (unequal), identifier column pid (contiguous blocks, sorted)"""
+    k = n_ind or rng.randint(2, 9)
+    sizes = [rng.randint(1, 5) for _ in range(k)]
+    if len(set(sizes)) == 1:
+        sizes[0] = sizes[0] % 5 + 1
+    n = sum(sizes)
+    cols = gen_table(rng, n, model)
+    ids = sorted(rng.sample(range(1, 60), k))
+    cols['pid'] = [i * SCALE for i, sz in zip(ids, sizes) for _ in range(sz)]
+    return cols, k
+
+
+def gen_panel_case(rng, i):
+    model = rng.choice([1, 2, 3])
+    cols, k = gen_panel_cols(rng, model)
+    return {'kind': 'table', 'id': f'panel{i}', 'panel': True, 'scale': SCALE, 'model': model,
+            'betas': {f'b{j + 1}': rng.randint(-16, 16) for j in range(model)}, 'weight': None, 'cols': cols,
+            'threads': [[t, rng.choice(['kw', 'params'])] for t in (1, 2, 3, max(1, k - 1), k, k + 3, 0)], 'perms': [], 'splits': []}
+
+
 def load_corpus():
     out = []
     d = VERIF / 'corpus' / 'C04'
@@ -340,7 +361,7 @@ def load_corpus():
 
 
 def witness(c, **kw):
-    w = {k: c[k] for k in ('kind', 'scale', 'model', 'betas', 'weight', 'cols') if k in c}
+    w = {k: c[k] for k in ('kind', 'scale', 'model', 'betas', 'weight', 'cols', 'panel') if k in c}
     w['table'] = 'cell value = cols[name][row] / scale; weights: ' + ('none (weight one)' if not c.get('weight') else
                   'column w' if c['weight'] == 'w' else 'w*0.5 + w2')
     w.update(kw)
@@ -738,6 +759,10 @@ def check_rethread(ctx, c, r, st):
 def check_bootstrap(ctx, c, r, st):
     wit = witness(c, T=c['T'], bootstrap_samples=c['samples'], seed=c['seed'],
                   steps='simulate; calculate_likelihood; estimate(run_bootstrap=True); calculate_likelihood; simulate')
+    if c.get('fault_at'):
+        wit['fault_at'] = c['fault_at']
+        wit['steps'] = ('simulate; calculate_likelihood; estimate(run_bootstrap=True) with obj.optimize replaced so that its '
+                        f'call number {c["fault_at"]} raises; exception caught; calculate_likelihood; ..._and_derivatives; simulate')
     if r is None or 'crash' in r or 'runner' in r:
         ctx.violation('C04/bootstrap/crash', 'the process died', wit, 'results', r, HOW)
         return None
@@ -746,9 +771,14 @@ def check_bootstrap(ctx, c, r, st):
         if k in r and not r[k]['ok']:
             ctx.violation('C04/bootstrap/exception', f'{k} raised', wit, 'a value', r[k], HOW)
             return None
-    if not r['estimate']['ok'] or val(r['estimate'])['nboot'] != c['samples']:
+    if not r['estimate']['ok']:
         return False          # the estimation itself failed on this table: not a statement of C04
-    st.record({'n': n, 'T': c['T'], 'samples': c['samples'], 'h': hash_cols(c)}, nontrivial=True)
+    if c.get('fault_at'):
+        if not val(r['estimate']).get('interrupted'):
+            return False
+    elif val(r['estimate'])['nboot'] != c['samples']:
+        return False
+    st.record({'n': n, 'T': c['T'], 'samples': c['samples'], 'fault_at': c.get('fault_at'), 'panel': bool(c.get('panel')), 'h': hash_cols(c)}, nontrivial=True)
     for k in ('f_after', 'fs_after', 'd_after', 'sim_after', 'N'):
         if not r[k]['ok']:
             ctx.violation('C04/bootstrap/exception', f'{k} raised after the bootstrap run', wit, 'a value', r[k], HOW)
@@ -764,7 +794,8 @@ def check_bootstrap(ctx, c, r, st):
     if fb is None or abs(fb - ex[0]) > sum_bound(n, ab[0], m):
         ctx.violation('C04/bootstrap/before', 'log likelihood before estimation is not the weighted sum', wit, to_float(ex[0]), val(r['f_before']), HOW)
     if fa is None or abs(fa - ex[0]) > sum_bound(n, ab[0], m):
-        ctx.violation('C04/bootstrap/after', 'after estimate(run_bootstrap=True) the log likelihood at the same parameters is no longer the '
+        ctx.violation('C04/bootstrap/after', ('after an INTERRUPTED estimate(run_bootstrap=True) (exception in a re-estimation, caught) '
+                      if c.get('fault_at') else 'after estimate(run_bootstrap=True) ') + 'the log likelihood at the same parameters is no longer the '
                       'weighted sum over the rows of the data set (the engine is not evaluating the estimation data)',
                       wit, {'before': val(r['f_before']), 'exact_sum': to_float(ex[0])}, {'after': val(r['f_after'])}, HOW)
         return True
@@ -786,15 +817,24 @@ def check_bootstrap(ctx, c, r, st):
     return True
 
 
-def gen_bootstrap_case(rng, i):
-    n = rng.randint(30, 60)
-    cols = gen_table(rng, n, 2)
+def gen_bootstrap_case(rng, i, fault=False, panel=False):
+    if panel:
+        cols, _ = gen_panel_cols(rng, 2, n_ind=rng.randint(14, 24))
+        n = len(cols['x1'])
+    else:
+        n = rng.randint(30, 60)
+        cols = gen_table(rng, n, 2)
     # a choice that depends on the attributes, so that the estimation is well behaved
     cols['ch'] = [(1 if (cols['x1'][r] - cols['x2'][r] + rng.randint(-60, 60)) > 0 else 2) * SCALE for r in range(n)]
     cols['w'] = [rng.randint(8, 32) for _ in range(n)]
-    return {'kind': 'bootstrap', 'id': f'boot{i}', 'scale': SCALE, 'model': 2, 'betas': {'b1': rng.randint(-8, 8), 'b2': rng.randint(-8, 8)},
-            'weight': rng.choice([None, 'w']), 'cols': cols, 'T': rng.choice([1, 2, 3, 0]), 'samples': rng.randint(2, 4),
-            'seed': rng.randint(1, 10 ** 6)}
+    c = {'kind': 'bootstrap', 'id': f'boot{i}', 'scale': SCALE, 'model': 2, 'betas': {'b1': rng.randint(-8, 8), 'b2': rng.randint(-8, 8)},
+         'weight': None if panel else rng.choice([None, 'w']), 'cols': cols, 'T': rng.choice([1, 2, 3, 0]), 'samples': rng.randint(2, 4),
+         'seed': rng.randint(1, 10 ** 6)}
+    if panel:
+        c['panel'] = True
+    if fault:      # optimize call 1 is the estimation itself; calls 2 .. samples+1 are the bootstrap re-estimations
+        c['fault_at'] = rng.randint(2, c['samples'] + 1)
+    return c
 
 
 # ---------------------------------------------------------------------------------------- stream ll_vs_simulate
@@ -825,6 +865,9 @@ def stream_ll(ctx, only=None, n_cases=None, with_partition=True):
                 cases.append({'kind': 'rethread', 'id': f'rt{i}.{j}', 'pairs': [pr],
                               **{k: base[k] for k in ('scale', 'model', 'betas', 'weight', 'cols')}})
         cases += [gen_bootstrap_case(rng, i) for i in range(ctx.n(2, 6))]
+        cases += [gen_panel_case(rng, i) for i in range(ctx.n(6, 60))]
+        cases += [gen_bootstrap_case(rng, 100 + i, fault=True, panel=(i % 2 == 1)) for i in range(ctx.n(4, 16))]
+        cases.append(gen_bootstrap_case(rng, 200, fault=False, panel=True))
     t0 = time.time()
     # rethread / bootstrap cases first and in chunks of their own (a reverted fix kills the process / is slow)
     special = [c for c in cases if c['kind'] == 'rethread'] + [c for c in cases if c['kind'] == 'bootstrap']
@@ -1007,13 +1050,15 @@ def replay(ctx, path):
         shutil.rmtree(ctx.scratch, ignore_errors=True)
         return 2
     n = len(wit['cols']['x1'])
-    c = {k: wit[k] for k in ('scale', 'model', 'betas', 'weight', 'cols')}
+    c = {k: wit[k] for k in ('scale', 'model', 'betas', 'weight', 'cols', 'panel') if k in wit}
     c['id'] = 'replay'
     parts = key.split('/')
     if len(parts) > 1 and parts[1] == 'rethread':
         c.update(kind='rethread', pairs=[[wit['old_thread_count'], wit['new_thread_count']]] if 'old_thread_count' in wit else wit.get('pairs', RETHREAD_PAIRS))
     elif len(parts) > 1 and parts[1] == 'bootstrap':
         c.update(kind='bootstrap', T=wit['T'], samples=wit['bootstrap_samples'], seed=wit['seed'])
+        if wit.get('fault_at'):
+            c['fault_at'] = wit['fault_at']
     else:
         T = wit.get('T')
         c.update(kind='table', threads=[[1, 'kw']] + ([[T, 'kw'], [T, 'params']] if T is not None else []), perms=[], splits=[])
